@@ -35,6 +35,16 @@ def gen_type_cases():
 def check_c05(tier):
     cases, stats = gen_type_cases()
     res = typesx.replay(cases, thorough=(tier == "thorough"))
+    # the same lattice restricted to Awkward operands, after register_awkward() (results then carry no
+    # behavior of their own and rely on the global registry)
+    akcases = [c for c in cases if "ak" in c["a"][0] or "ak" in c["b"][0]]
+    if tier == "quick":
+        akcases = akcases[::4]
+    res_reg = typesx.replay(akcases, thorough=False, registered=True)
+    for r in res_reg["records"]:
+        r["registered_mode"] = "T"
+    res["records"] += res_reg["records"]
+    res["calls"] += res_reg["calls"]
     v = common.Verdicts("C05")
     v.extend(res["records"])
     nviol, nknown = v.finish()
@@ -49,7 +59,7 @@ def check_c05(tier):
         "traces_validated_against_impl": len(executed),
         "samples": [executed[0], executed[len(executed) // 2], executed[-1]],
         "required_outcomes": outs,
-        "implementation_calls": res["calls"],
+        "implementation_calls": res["calls"], "calls_in_registered_awkward_mode": res_reg["calls"],
         "learned_result_system_table_entries": res["table_size"],
         "evaluations": res["calls"], "distinct_nontrivial": len(executed),
         "rule": ("states of spec/Types.tla = every public method x every operand descriptor (backend in object/NumPy/Awkward array/Awkward "
